@@ -90,6 +90,11 @@ def run(F, R):
     # counters and the folded completion test (C03.E5 / E9)
     from .C03 import wrap_rule
     wrap_rule(F, R, 'Q11')
+    # Q16: bytes buffered for a socket connection are read back once and in order: the per-connection ring's add/drain index arithmetic
+    # (C17.V6)
+    if any(n.endswith('RingBuffer') and n.startswith('device::socket::') for n in F.adts):
+        from .C17 import v6_ring
+        guard(R, 'Q16', 'ring-arithmetic', lambda: v6_ring(F, RuleProxy(R, {'V6': 'Q16'})))
     # Q10: delivered events are what the device wrote: the notification-type decoding table agrees with the enum's codes
     decode_tables_rule(F, R, 'Q10', ['device::sound', 'device::input', 'device::socket'])
     # Q15: a delivered socket packet carries exactly its payload: the body handed to the handler ends at header size + the header's
@@ -213,6 +218,7 @@ def q1_poll(F, R, M, b, roles, byrole):
     where = fn_site(F, b['id'])
     paths = PathEnum(sg).run()
     nd = 0
+    silent = []
     for i, p in enumerate(paths):
         delivers = [k for k, e in enumerate(p.effects) if e[0] == 'call' and e[4].get('trait') in ('core::ops::FnOnce', 'core::ops::FnMut', 'core::ops::Fn')]
         pops = [k for k, e in enumerate(p.effects) if e[0] == 'call' and e[2] in byrole['pop_used']]
@@ -224,6 +230,7 @@ def q1_poll(F, R, M, b, roles, byrole):
             if pops:
                 okpop = any(c[0][0] == 'discr' and c[0][1][0] == 'call' and c[0][1][1] == p.effects[pops[0]][1] and c[1] == ('in', (0,)) for c in p.conds)
                 if okpop and not adds:
+                    silent.append(err_variant(p.ret) in ('Ok', 'Some', 'None'))
                     R.note('Q1 advisory: %s has a path returning %s after a successful pop_used without re-posting the buffer (the device '
                            'claimed more bytes than the buffer holds); the device violated the specification on that path' % (b['id'], err_variant(p.ret)))
             continue
@@ -253,6 +260,10 @@ def q1_poll(F, R, M, b, roles, byrole):
         if err_variant(p.ret) is None and p.ret is not None:
             R.check(p.ret[0] == 'call' and p.ret[1] == del_e[1], 'Q1', inst + ':returns-handler-result', where, 'returns what the handler returned', 'result is not the handler result')
     R.count('deliver_paths', nd)
+    R.check(not any(silent), 'Q1', '%s:popped-buffer-not-dropped-silently' % b['id'], where,
+            'every path that pops a buffer without delivering and re-posting it reports an error',
+            'a path returns success/nothing-pending after a successful pop_used without re-posting the buffer: the buffer is silently '
+            'removed from the device')
     # Q4 no unchecked indexing
     bad = [n for n in sg.calls(lambda d: d.get('fn', '').endswith('get_unchecked') or d.get('fn', '').endswith('get_unchecked_mut') or d.get('fn', '').endswith('from_raw_parts'))]
     R.check(not bad, 'Q4', '%s:checked-slices' % b['id'], where, 'only checked indexing / slicing on the delivery path', 'unchecked indexing on the delivery path')
